@@ -68,11 +68,11 @@ func selfSigned() tls.Certificate {
 }
 
 type work struct {
-	kind     string        // http, https, tcp, sni, grpc-unary, grpc-stream
-	dur      time.Duration // how long the upstream takes; <0 = never ends
-	short    bool
-	done     chan string // "" = completed normally, otherwise what went wrong
-	started  chan struct{}
+	kind    string        // http, https, tcp, sni, grpc-unary, grpc-stream
+	dur     time.Duration // how long the upstream takes; <0 = never ends
+	short   bool
+	done    chan string // "" = completed normally, otherwise what went wrong
+	started chan struct{}
 }
 
 // TestC18Shutdown: every mix of listeners, in-flight work and shutdown moment.
